@@ -359,7 +359,7 @@ def shard_trace(lines, nshards, is_boundary):
 
 
 def validate_sharded(ctx, name, module, cfg, raw_lines, *, nshards=None, is_boundary=None,
-                     timeout=1200, heap="3g", trace_name="trace.ndjson"):
+                     timeout=1200, heap="3g", trace_name="trace.ndjson", check_consumed=True, dfs_queue=False):
     """Run the trace specification over raw ndjson lines, sharded over processes.
 
     Returns list of (shard_lines, TlcResult). A shard whose trace was not fully
@@ -376,14 +376,14 @@ def validate_sharded(ctx, name, module, cfg, raw_lines, *, nshards=None, is_boun
         d = ctx.scratch("%s-shard%02d" % (name, i))
         with open(os.path.join(d, trace_name), "w") as f:
             f.write("".join(shards[i]))
-        return run_tlc(d, module, cfg, timeout=timeout, heap=heap, workers=1)
+        return run_tlc(d, module, cfg, timeout=timeout, heap=heap, workers=1, dfs_queue=dfs_queue)
 
     with ThreadPoolExecutor(max_workers=min(len(shards), NCPU)) as ex:
         results = list(ex.map(one, range(len(shards))))
     out = []
     for sh, r in zip(shards, results):
         ctx.add_tlc(r)
-        if r.postcondition_failed or r.distinct != len(sh) + 1:
+        if check_consumed and (r.postcondition_failed or r.distinct != len(sh) + 1):
             raise Infra("trace shard of %s not fully consumed (%d states for %d lines)" %
                         (name, r.distinct, len(sh)))
         out.append((sh, r))
